@@ -29,7 +29,7 @@ struct Sys {
 
 struct Vals {   // one complete assignment of the variables
     Real t, q[3], u[3], g, zh, k, q0, c, fmob, fb[3], lockv;
-    bool springOff, damperOff, tpsOff, excl2, lock2, gravOff, downZ;
+    bool springOff, damperOff, tpsOff, excl2, lock2, gravOff, downZ; Real gvec; int gvAxis;
 };
 
 static Vals symVals(const std::string& p, bool flagsFrom, unsigned flags) {
@@ -42,7 +42,7 @@ static Vals symVals(const std::string& p, bool flagsFrom, unsigned flags) {
     v.fmob = in(p + "fmob", 1.25, "lin");
     for (int i = 0; i < 3; ++i) v.fb[i] = in(p + "fb" + std::to_string(i), 0.75 - 0.5 * i, "lin");
     v.lockv = in(p + "lockv", 0.125, "lin");
-    v.springOff = flags & 1; v.damperOff = flags & 2; v.tpsOff = flags & 4; v.excl2 = flags & 8; v.lock2 = flags & 16; v.gravOff = flags & 32; v.downZ = flags & 64;
+    v.springOff = flags & 1; v.damperOff = flags & 2; v.tpsOff = flags & 4; v.excl2 = flags & 8; v.lock2 = flags & 16; v.gravOff = flags & 32; v.downZ = flags & 64; v.gvAxis = (flags >> 7) & 3; v.gvec = v.g;
     return v;
 }
 
@@ -70,9 +70,10 @@ static void applyOne(Sys& S, State& s, const Vals& v, int which) {
     case 18: S.grav->setBodyIsExcluded(s, S.b2->getMobilizedBodyIndex(), v.excl2); break;
     case 19: if (v.lock2) S.b2->lockAt(s, v.lockv, Motion::Velocity); else S.b2->unlock(s); break;
     case 20: if (v.gravOff) S.grav->disable(s); else S.grav->enable(s); break;
+    case 21: { Real m = v.gvec; S.grav->setGravityVector(s, v.gvAxis == 0 ? Vec3(0, -m, 0) : v.gvAxis == 1 ? Vec3(0, 0, -m) : v.gvAxis == 2 ? Vec3(m, 0, 0) : Vec3(0, m, 0)); } break;
     }
 }
-static const int NVARS = 21;
+static const int NVARS = 22;
 
 static void emit(Sys& Y, State& s, const std::string& p) {
     Sys& S_ = Y;
@@ -107,7 +108,7 @@ int main(int argc, char** argv) {
         int len = atoi(argOr(argc, argv, 2, "8").c_str());
         auto rnd = [&]() { seed = seed * 1664525u + 1013904223u; return (seed >> 10); };
         Sys S;
-        unsigned finalFlags = rnd() & 127;
+        unsigned finalFlags = rnd() & 511;
         Vals fin = symVals("fin_", true, finalFlags);
         // ---- history
         State h = S.sys.getDefaultState();
@@ -117,7 +118,9 @@ int main(int argc, char** argv) {
             unsigned op = rnd() % 10;
             if (op < 6) {            // change one variable to an OLD value
                 int which = rnd() % NVARS;
-                Vals old = symVals("old" + std::to_string(step) + "_", true, rnd() & 127);
+                Vals old = symVals("old" + std::to_string(step) + "_", true, rnd() & 511);
+                // a gravity vector of the SAME magnitude as the final one but another direction is a legal old value too
+                if (which == 21 && (rnd() & 1)) { old.gvec = fin.g; if (old.gvAxis == fin.gvAxis) old.gvAxis = (old.gvAxis + 1) & 3; }
                 applyOne(S, h, old, which);
                 script += " set" + std::to_string(which);
             } else if (op < 9) {     // realize to some stage
@@ -142,13 +145,13 @@ int main(int argc, char** argv) {
         int order[NVARS];
         for (int i = 0; i < NVARS; ++i) order[i] = i;
         for (int i = NVARS - 1; i > 0; --i) { int j = rnd() % (i + 1); std::swap(order[i], order[j]); }
-        for (int i = 0; i < NVARS; ++i) applyOne(S, h, fin, order[i]);
+        for (int i = 0; i < NVARS; ++i) if (order[i] != 21) applyOne(S, h, fin, order[i]);
         symfp::note("script", script);
         emit(S, h, "h_");
         // ---- fresh state, canonical order
         State f = S.sys.getDefaultState();
         S.sys.realizeModel(f);
-        for (int i = 0; i < NVARS; ++i) applyOne(S, f, fin, i);
+        for (int i = 0; i < NVARS; ++i) if (i != 21) applyOne(S, f, fin, i);
         emit(S, f, "f_");
     });
 }
